@@ -22,7 +22,10 @@ CONSTANTS Cand,            \* candidate instance OIDs
                            \*   "foreignId" (InvalidResponseId), "usmReject" (a response the security model refuses); {"none"} switches this off
           PartialFirst,    \* TRUE: the agent may also cut a GETBULK response inside its first repetition (RFC 3416 4.2.3)
           PinPartialFirstLost,   \* the columns such a response leaves empty are taken for exhausted subtrees   (fixed: F27)
-          PinLenientSwallowsAll  \* errors="warn" catches every SnmpError instead of FaultySNMPImplementation only (seeded C08-m4 / C09-m9)
+          PinLenientSwallowsAll, \* errors="warn" catches every SnmpError instead of FaultySNMPImplementation only (seeded C08-m4 / C09-m9)
+          Volatile,        \* TRUE: the agent's objects change while it answers (counters, sysUpTime): no two bindings carry the same value,
+                           \*       not even two bindings of one instance in one response (RFC 3416 promises no snapshot)
+          PinValueOrder    \* deduped_varbinds orders the per-root groups as lists of (OID, value) pairs: values have no order   (fixed: F28)
 
 VARIABLES ag, roots, bulk, errors, pc, nextFetches, contFrom, yielded, nreq, outcome, asked, reask, revealed, hit
 vars == <<ag, roots, bulk, errors, pc, nextFetches, contFrom, yielded, nreq, outcome, asked, reask, revealed, hit>>
@@ -56,6 +59,9 @@ Fetch(oids) ==
 Prev(root) == IF \E i \in DOMAIN contFrom : contFrom[i][1] = root
               THEN (CHOOSE p \in ToSet(contFrom) : p[1] = root)[2] ELSE root
 
+\* two requested OIDs were answered with the same instance first (the successor of an empty subtree is the first instance of the next one)
+SameHead(groups) == \E i, j \in DOMAIN groups : i < j /\ groups[i].grp # <<>> /\ groups[j].grp # <<>> /\ groups[i].grp[1] = groups[j].grp[1]
+
 FaultOutcome == IF errors = "warn" /\ ~(PinFirstUnguarded /\ nreq = 0) THEN "ok" ELSE "faulty"
 
 Round ==
@@ -73,6 +79,10 @@ Round ==
                    stuck == ~PinNoProgress /\ \E i \in DOMAIN unf : ~OidLess(Prev(unf[i][1]), unf[i][2])
                IN IF stuck
                   THEN /\ outcome' = FaultOutcome /\ pc' = "done"
+                       /\ UNCHANGED <<nextFetches, contFrom, yielded>>
+                  ELSE IF Volatile /\ PinValueOrder /\ SameHead(groups)
+                  THEN \* sorted() meets two groups that start with the same instance under different values: TypeError leaves the walk
+                       /\ outcome' = "TypeError" /\ pc' = "done"
                        /\ UNCHANGED <<nextFetches, contFrom, yielded>>
                   ELSE /\ yielded' = yielded \o NewYields(groups, roots, ToSet(yielded))
                        /\ contFrom' = unf
